@@ -200,3 +200,10 @@ pub fn verif_offsets<K, V>() -> Vec<(&'static str, usize, usize)> {
         ("Linked<V>", size_of::<seize::Linked<V>>(), 0),
     ]
 }
+
+impl<T, S> crate::HashSet<T, S> {
+    /// The map a set is built on (for the inspector).
+    pub fn verif_inner(&self) -> &HashMap<T, (), S> {
+        &self.map
+    }
+}
